@@ -67,6 +67,12 @@ def specs(tier):
         spec['prince'] = D.PRINCE
         spec['omen'] = om
         out.append(spec)
+    # a latin-1 ruleset with letters whose capital lies outside latin-1 (micro sign -> Greek capital mu, y with diaeresis -> U+0178): every guess is
+    # written and counted, whatever the ruleset's encoding
+    lat = dict(t0)
+    lat.update(A={2: [('\u00b5a', .6), ('\u00ffb', .4)], 1: [('a', 1.0)]}, C={2: [('UL', .5), ('LL', .3), ('LU', .2)], 1: [('L', 1.0)]},
+               grammar=[('A2', .6), ('D1', .4)], prince=D.PRINCE, omen=OMEN_A, encoding='latin-1')
+    out.append(lat)
     return out
 
 
